@@ -26,14 +26,23 @@ def compile_corpus(ctx, per_compiler, compilers=None):
     jobs = []
     cid = 0
     for cname in (compilers or compobs.COMPILERS):
-        for P in corpus_for(ctx, cname, per_compiler):
-            cid += 1
-            jobs.append((cid, P, cname, False))
+        half = per_compiler // 2 + per_compiler % 2
+        for i, P in enumerate(corpus_for(ctx, cname, half + per_compiler)):
+            # `half` problems with random goals; `per_compiler` further problems, each in two variants whose goals are
+            # taken from a state that a short random walk reaches (compobs.goal_directed, seeded by cid): these have
+            # short valid plans that depend on the effects along them, and are explored one step less deep
+            for _ in range(1 if i < half else 2):
+                cid += 1
+                jobs.append((cid, P, cname, False if i < half else "goal-directed"))
     with Pool(14, maxtasksperchild=40) as pool:
         recs = pool.map(compobs.worker, jobs, chunksize=2)
     for r in recs:
         if r["skip"].startswith("HARNESS"):
             raise MachineryError("harness error: %s" % r.get("detail"))
+    done = sum(1 for r in recs if not r["skip"])
+    if done * 5 < len(recs):
+        # a vacuous run (e.g. every build timing out on an overloaded machine) must not pass as "ok"
+        raise MachineryError("only %d of %d compilations were carried out: %s" % (done, len(recs), sorted({r["skip"] for r in recs})))
     return recs
 
 
@@ -42,7 +51,7 @@ def small_enough(r, max_gacts=40, max_keys=24):
 
 
 def run_product(ctx, recs, module, cfg, depth, label):
-    batch = [dict(r, depth=depth) for r in recs if not r["skip"] and r["raised"] == "none" and small_enough(r)]
+    batch = [dict(r, depth=depth - 1 if r.get("gd") else depth) for r in recs if not r["skip"] and r["raised"] == "none" and small_enough(r)]
     if not batch:
         raise MachineryError("no compilation succeeded")
     slim = [{k: r[k] for k in ("cid", "comp", "P", "Q", "pkeys", "qkeys", "back", "depth")} for r in batch]
@@ -94,8 +103,10 @@ def run_common(ctx, module, cfg, label):
     ctx.cov["traces_validated_against_impl"] = len(batch)
     ctx.cov["distinct_nontrivial"] = sum(1 for r in batch if any(b["pa"] for b in r["back"]))
     ctx.cov["rule"] = (
-        "per compiler %d G2 problems (feature mask per compiler), compiled by the real compiler; one evaluation = one "
-        "(original, compiled, map-back table) product explored exhaustively by TLC to depth %d; non-trivial = the compiled "
+        "per compiler %d G2 problems (feature mask per compiler; half as many again with random goals, the others in two "
+        "variants with goals taken from a state reached by a random walk of at most 3 steps), compiled by the real compiler; "
+        "one evaluation = one (original, compiled, map-back table) product explored exhaustively by TLC to depth %d (random "
+        "goals) or one less (goal-directed); non-trivial = the compiled "
         "problem has at least one ground action mapping back to an original action. Compilations that raise are the "
         "subject of C08 and are only counted here." % (per, depth)
     )
